@@ -286,6 +286,77 @@ def conv_cases(ck):
                 ck.broke("correspondence", "Model/Wiring.conv_unique_pairs", f"dims={dims} rf={rfs} C={C} s={s}: model {mv} implementation {got}")
 
 
+@contextlib.contextmanager
+def forced_randint(total, values):
+    """torch.randint(0, total, (len(values),)) returns the supplied numbers (once); every other call is the real one."""
+    ri = torch.randint
+    state = {"used": False}
+
+    def randint(low, high, size, *a, **kw):
+        if int(high) == total and tuple(size) == (len(values),) and not state["used"]:
+            state["used"] = True
+            return torch.tensor(values, dtype=torch.long)
+        return ri(low, high, size, *a, **kw)
+    torch.randint = randint
+    try:
+        yield state
+    finally:
+        torch.randint = ri
+
+
+def large_triangle(ck):
+    """Pair numbers at the two ends of rows of a LARGE pair triangle (receptive fields of thousands of positions: 3x3 windows over
+    hundreds or thousands of channels).  The pair a number stands for is fixed by integer arithmetic (theorem C13_unrank_arith: row i
+    starts at i(2P-i-1)/2); a sampler that goes through floating point gets the ends of early rows wrong once P exceeds a few thousand."""
+    from torchlogix.layers import LogicConv2d
+    depth = 6
+    s = 2 ** depth
+    for C in ((456, 1024) if ck.tier == "quick" else (456, 1024, 1423, 4096, 12000)):
+        P = 9 * C
+        total = P * (P - 1) // 2
+        start = lambda i: i * (2 * P - i - 1) // 2
+        rows = [0, 1, 2, 3, 5, 10, 100, 1000, P // 3, P // 2, P - 4, P - 3]
+        values = []
+        for i in rows:
+            values += [start(i), start(i + 1) - 1]
+        values.append(total - 1)
+        while len(values) < s:
+            v = ck.rng.randrange(total)
+            if v not in values:
+                values.append(v)
+        values = values[:s]
+        case = {"kind": "large-triangle", "positions": P, "channels": C, "pairs": s}
+        ck.case(case, nontrivial=True, kind="large-triangle")
+        try:
+            with forced_randint(total, values) as st:
+                l = LogicConv2d(in_dim=3, device="cpu", channels=C, num_kernels=1, tree_depth=depth, receptive_field_size=3,
+                                connections="random-unique")
+        except Exception as e:
+            ck.disagree("a 'random-unique' convolution over many channels cannot be built", dict(case, observed=repr(e)[:200]),
+                        signature={"scheme": "conv", "what": "large-triangle", "kind": "raises"})
+            continue
+        if not st["used"]:
+            ck.broke("correspondence", "harness", f"{case}: the sampler did not draw {s} numbers below {total} in one batch (draws could not be supplied)")
+            continue
+        pa, pb = l.kernel_pairs
+
+        def coord(idx):                                   # Model/Wiring.position: row-major over (h, w, c)
+            return [idx // (3 * C), (idx // C) % 3, idx % C]
+        want = []
+        for v in values:
+            i = next(r for r in range(max(0, int((2 * P - 1 - ((2 * P - 1) ** 2 - 8 * v) ** 0.5) / 2) - 2), P) if start(r + 1) > v)
+            j = v - start(i) + i + 1
+            want.append((coord(i), coord(j)))
+        got = [(a, b) for a, b in zip(pa[0].tolist(), pb[0].tolist())]
+        ck.count("large_triangle_pairs", s)
+        if got != want:
+            k = next(n for n, (g, w_) in enumerate(zip(got, want)) if g != w_)
+            ck.disagree("conv 'random-unique' wiring: a drawn pair number is turned into the wrong pair (degenerate or repeated pairs follow)",
+                        dict(case, pair_number=values[k], expected_pair=want[k], observed_pair=got[k],
+                             degenerate=sum(1 for a, b in got if a == b)),
+                        signature={"scheme": "conv", "what": "large-triangle", "kind": "unrank"})
+
+
 def run(ck: Check):
     ck.trusted = TRUSTED
     ck.rule = ("dense 'unique': every (in_dim, out_dim) with in_dim <= 12 (quick, thinned for large out_dim) / 25 (thorough) incl. "
@@ -296,6 +367,7 @@ def run(ck: Check):
     ck.prove("Props/C13", THEOREMS)
     dense_cases(ck)
     conv_cases(ck)
+    large_triangle(ck)
     # 'unique' wiring at the scale of the exported large classes: 2^depth distinct pairs out of ~10^8 possible ones must be drawn without
     # listing them (the fourth convolution of ClgnCifar10Large4 has 40960 channels: 6.8e10 pairs); run under an address-space limit
     from harness import subproc
